@@ -27,6 +27,8 @@ CLAIMS = {
              "lattice (two wrong variants are rejected). TLC-generated scenarios (1..4 stops incl. repeated positions, "
              "17 geometries, 4 repeat modes, 12 transforms: affine, shear, w = 2, perspective in x only / y only / "
              "both, w crossing zero; narrow and float destinations; 4 rows per composite call) and the exhaustive "
+             "linear gradients 2^10..2^18 periods away from [0,1] (vectors down to 48/65536 pixel, origin up to 250 pixels "
+             "away, 256-fold down-scaling transform), "
              "repeat-switch histories on one image object (every ordered pair and A,B,A of the four repeat modes, each "
              "composite judged under the mode in force: stale sentinel stops must not show), the exhaustive "
              "geometry x transform grid (so that every iterator branch - the linear one-scanline shortcut, the "
@@ -65,6 +67,16 @@ def tlc_grid():
     res = [json.loads(json.loads(b)) for b in sorted(set(r.vf("scenario")))]
     if len(res) < 100:
         raise vf.Infra("GradientGen grid produced %d scenarios:\n%s" % (len(res), r.out[-2000:]))
+    return res, r
+
+
+def tlc_far():
+    """linear gradients thousands of periods away from [0,1] (GradientGen!Far), enumerated breadth-first by TLC"""
+    path = os.path.join(vf.SPEC, "gen", "GradientGen.tla")
+    r = vf.run_tlc(path, cfg=os.path.join(vf.SPEC, "gen", "GradientFar.cfg"), workers=1, timeout=300, tag="gfar")
+    res = [json.loads(json.loads(b)) for b in sorted(set(r.vf("scenario")))]
+    if len(res) < 100:
+        raise vf.Infra("GradientGen far set produced %d scenarios:\n%s" % (len(res), r.out[-2000:]))
     return res, r
 
 
@@ -303,6 +315,12 @@ def run(prop, args):
     chk.add_tlc(r, "geometry x transform grid (GradientGen!Grid, breadth-first)")
     chk.extra["tlc_grid_scenarios"] = len(grid)
     scns = scns + grid
+    far, r = tlc_far()
+    chk.add_tlc(r, "far-period linear gradients (GradientGen!Far, breadth-first)")
+    if quick:
+        far = random.Random(args.seed * 7919 + 1).sample(far, 32)
+    chk.extra["far_period_scenarios"] = len(far)
+    scns = scns + far
     chk.sample({"tlc_generated_scenario": scns[0]})
     execs = []
     for i, s in enumerate(scns):
@@ -363,7 +381,8 @@ def run(prop, args):
                          "shows at least two different pixel values; distinct by scenario + scanline content; "
                          "evaluations = scanlines validated")
     chk.assumptions += [
-        "geometry, transforms and pixel centres on the half-pixel lattice, |coordinates| <= 12 pixels, whole-degree "
+        "geometry, transforms and pixel centres on the half-pixel lattice (linear gradients: any lattice of at least "
+        "8/65536 pixel, origin within 256 pixels), |coordinates| <= 12 pixels otherwise, whole-degree "
         "conical angles, stop colours that are exact 8-bit values: the statement's 'all geometries' is sampled",
         "colour tolerance: one 8-bit step around the hull of the reference colour over t +- 2/65536 (pixman truncates t "
         "to 16.16, twice on the affine linear path); exactly-on-boundary cases (discriminant 0, radius 0, t = 0 or 1 "
